@@ -32,7 +32,9 @@ func (r *Run) collectRaces() {
 	reports := strings.Split(string(data), "WARNING: DATA RACE")
 	reports = reports[1:]
 	r.SetExtra("race_reports", len(reports))
-	fn := regexp.MustCompile(`(?m)^  (cuelabs\.dev/go/oci/ociregistry\S*?)\(\)$`)
+	// the access site of a stack = its innermost frame that is repository or harness code
+	// (standard-library frames above it are skipped)
+	fn := regexp.MustCompile(`(?m)^  ((?:cuelabs\.dev/go/oci/ociregistry|verifharness|main\.)\S*?)\(\)$`)
 	type agg struct {
 		n    int
 		text string
@@ -50,7 +52,7 @@ func (r *Run) collectRaces() {
 				continue
 			}
 			m := fn.FindStringSubmatch(block)
-			if m != nil {
+			if m != nil && strings.HasPrefix(m[1], "cuelabs.dev/go/oci/ociregistry") {
 				sites = append(sites, strings.TrimPrefix(m[1], "cuelabs.dev/go/oci/ociregistry/"))
 			} else {
 				sites = append(sites, "harness")
